@@ -11,6 +11,50 @@ open PVal (pyEq pyEqList pyEqDict dictGet dictSet seqItems?)
 
 variable {F : Type} [FloatOps F] [WireLaws F]
 
+/-! ### values that can be sent
+
+`Sendable dt v`: what the wire round trip needs of `v` — the declared value set (`Valid`) with the limits of the
+float leaves dropped: a double leaf is finite, a scaled leaf is a number the grid reproduces.  Every valid value is
+sendable (`valid_sendable`); so is what `from_string` makes of a text form (a re-read float may leave the limits:
+`'%g' % 123456789.0` reads back as `123457000.0`). -/
+
+mutual
+def Sendable : DType F → PVal F → Prop
+  | .double _ _ _ _, v =>
+    match v with
+    | .float x => FiniteNum x
+    | _ => False
+  | .scaled scale _ _ _ _, v =>
+    match v with
+    | .float x => SnapFix scale x ∧ isNaN x = false
+    | _ => False
+  | .array elem minlen maxlen, v =>
+    match v with
+    | .tuple vs => (∀ x ∈ vs, Sendable elem x) ∧ minlen ≤ vs.length ∧ vs.length ≤ maxlen
+    | _ => False
+  | .tuple elems, v =>
+    match v with
+    | .tuple vs => SendableZip elems vs
+    | _ => False
+  | .struct ms opt _, v =>
+    match v with
+    | .dict fields => (∀ kv ∈ fields, SendableMember ms kv.1 kv.2) ∧ (fields.map (·.1)).Nodup ∧
+        (∀ k ∈ ms.map (·.1), k ∉ opt → k ∈ fields.map (·.1))
+    | _ => False
+  | .int min max, v => InSetG SnapFix (.int min max) v
+  | .bool, v => InSetG SnapFix (.bool) v
+  | .enum ms, v => InSetG SnapFix (.enum ms) v
+  | .string a b c, v => InSetG SnapFix (.string a b c) v
+  | .blob a b, v => InSetG SnapFix (.blob a b) v
+def SendableZip : List (DType F) → List (PVal F) → Prop
+  | [], [] => True
+  | t :: ts, v :: vs => Sendable t v ∧ SendableZip ts vs
+  | _, _ => False
+def SendableMember : List (String × DType F) → String → PVal F → Prop
+  | [], _, _ => False
+  | (k, t) :: rest, key, v => if k = key then Sendable t v else SendableMember rest key v
+end
+
 /-! ### plumbing -/
 
 theorem median3_mid {a b c : F} (h1 : le a b = true) (h2 : le b c = true) : median3 a b c = b := by
@@ -93,6 +137,27 @@ theorem pyEq_dict_of_rel (l r : List (String × PVal F)) (h : RelFields (fun a b
   have h2 := pyEqDict_of_lookup r l (dictGet_of_rel l r h hnd)
   simp [pyEq, h1, h2]
 
+theorem relFields_mono {R S : PVal F → PVal F → Prop} (hrs : ∀ a b, R a b → S a b) :
+    ∀ (l r : List (String × PVal F)), RelFields R l r → RelFields S l r
+  | [], [], _ => by simp [RelFields]
+  | (k, a) :: l, (k', b) :: r, h => by
+    simp only [RelFields] at h ⊢
+    exact ⟨h.1, hrs a b h.2.1, relFields_mono hrs l r h.2.2⟩
+  | [], _ :: _, h => by simp [RelFields] at h
+  | _ :: _, [], h => by simp [RelFields] at h
+
+/-- the relation between what comes back and what was sent: Python-equal, and the very same value when that was canonical -/
+def Back (a b : PVal F) : Prop := pyEq a b = true ∧ (Canon b → a = b)
+
+theorem relFields_exact : ∀ (l r : List (String × PVal F)), RelFields Back l r → CanonFields r → l = r
+  | [], [], _, _ => rfl
+  | (k, a) :: l, (k', b) :: r, h, hc => by
+    simp only [RelFields] at h
+    simp only [CanonFields] at hc
+    rw [h.1, h.2.1.2 hc.1, relFields_exact l r h.2.2 hc.2]
+  | [], _ :: _, h, _ => by simp [RelFields] at h
+  | _ :: _, [], h, _ => by simp [RelFields] at h
+
 /-! ### leaves -/
 
 theorem find_member {ms : List (String × Int)} {n : String} {k : Int} (hm : (n, k) ∈ ms)
@@ -112,15 +177,18 @@ theorem find_member {ms : List (String × Int)} {n : String} {k : Int} (hm : (n,
       simp only [this]
       exact ih h hnd.2
 
-theorem double_rt {min max ar rr x : F} (hwf : (DType.double min max ar rr).WF)
-    (hv : isNaN x = false ∧ le min x = true ∧ le x max = true) :
+/-- a value within the limits of a well-formed double type is finite -/
+theorem double_finite {min max ar rr x : F} (hwf : (DType.double min max ar rr).WF)
+    (hv : isNaN x = false ∧ le min x = true ∧ le x max = true) : FiniteNum x := by
+  simp only [DType.WF] at hwf
+  obtain ⟨hn, hlo, hhi⟩ := hv
+  exact ⟨hn, WireLaws.le_trans _ _ _ hwf.2.2.2.1 hlo, WireLaws.le_trans _ _ _ hhi hwf.2.2.2.2.1⟩
+
+theorem double_rt {min max ar rr x : F} (hfin : FiniteNum x) :
     exportValue (.double min max ar rr) (.float x) = .ok (.num x) ∧ FiniteNum x ∧
     importValue (.double min max ar rr) (.num x) = .ok (.float (addZero x)) ∧
     pyEq (.float (addZero x) : PVal F) (.float x) = true := by
-  simp only [DType.WF] at hwf
-  obtain ⟨hn, hlo, hhi⟩ := hv
-  have h1 : le (neg maxFinite) x = true := WireLaws.le_trans _ _ _ hwf.2.2.2.1 hlo
-  have h2 : le x maxFinite = true := WireLaws.le_trans _ _ _ hhi hwf.2.2.2.2.1
+  obtain ⟨hn, h1, h2⟩ := hfin
   refine ⟨rfl, ⟨hn, h1, h2⟩, ?_, ?_⟩
   · have hm : median3 (neg maxFinite) (addZero x) maxFinite = addZero x :=
       median3_mid (by rw [WireLaws.le_addZero_right]; exact h1) (by rw [WireLaws.le_addZero_left]; exact h2)
@@ -135,16 +203,17 @@ theorem int_rt {min max i : Int} (hwf : (DType.int min max : DType F).WF) (hv : 
   · simp [importValue, call, conv, PVal.ofJVal, intCall, hy, Except.map]
   · simp [pyEq, PVal.numeric?, PVal.numEq]
 
-theorem scaled_rt {scale min max ar rr x : F} (hv : SnapFix scale x ∧ BetweenSnapped scale min max x) :
+theorem between_notNaN {scale min max x : F} (hb : BetweenSnapped scale min max x) : isNaN x = false := by
+  unfold BetweenSnapped at hb
+  split at hb
+  · exact (WireLaws.le_notNaN _ _ hb.1).2
+  · exact hb.elim
+
+theorem scaled_rt {scale min max ar rr x : F} (hv : SnapFix scale x ∧ isNaN x = false) :
     ∃ k, exportValue (.scaled scale min max ar rr) (.float x) = .ok (.int k) ∧
       importValue (.scaled scale min max ar rr) (.int k) = .ok (.float x) ∧
       pyEq (.float x : PVal F) (.float x) = true := by
-  obtain ⟨hs, hb⟩ := hv
-  have hn : isNaN x = false := by
-    unfold BetweenSnapped at hb
-    split at hb
-    · exact (WireLaws.le_notNaN _ _ hb.1).2
-    · exact hb.elim
+  obtain ⟨hs, hn⟩ := hv
   unfold SnapFix IsSome at hs
   cases hsn : snap scale x with
   | none => rw [hsn] at hs; exact hs.elim
@@ -204,14 +273,14 @@ theorem string_rt {minc maxc : Nat} {utf8 : Bool} {s : String}
 
 theorem mapExport_rt {f : PVal F → Except Err (JVal F)} {g : JVal F → Res F} {P : JVal F → Prop} :
     ∀ (vs : List (PVal F)),
-    (∀ v ∈ vs, ∃ j v', f v = .ok j ∧ P j ∧ StrictJ j ∧ g j = .ok v' ∧ pyEq v' v = true) →
+    (∀ v ∈ vs, ∃ j v', f v = .ok j ∧ P j ∧ StrictJ j ∧ g j = .ok v' ∧ pyEq v' v = true ∧ (Canon v → v' = v)) →
     ∃ js vs', mapExport f vs = .ok js ∧ (∀ j ∈ js, P j) ∧ StrictList js ∧ js.length = vs.length ∧
-      mapImport g js = .ok vs' ∧ pyEqList vs' vs = true
-  | [], _ => ⟨[], [], rfl, by simp, by simp [StrictList], rfl, rfl, by simp [pyEqList]⟩
+      mapImport g js = .ok vs' ∧ pyEqList vs' vs = true ∧ (CanonList vs → vs' = vs)
+  | [], _ => ⟨[], [], rfl, by simp, by simp [StrictList], rfl, rfl, by simp [pyEqList], fun _ => rfl⟩
   | v :: vs, h => by
-    obtain ⟨j, v', hf, hp, hs, hg, he⟩ := h v (List.mem_cons_self ..)
-    obtain ⟨js, vs', hfs, hps, hss, hl, hgs, hes⟩ := mapExport_rt vs (fun x hx => h x (List.mem_cons_of_mem _ hx))
-    refine ⟨j :: js, v' :: vs', ?_, ?_, ?_, ?_, ?_, ?_⟩
+    obtain ⟨j, v', hf, hp, hs, hg, he, hx⟩ := h v (List.mem_cons_self ..)
+    obtain ⟨js, vs', hfs, hps, hss, hl, hgs, hes, hxs⟩ := mapExport_rt vs (fun x hx => h x (List.mem_cons_of_mem _ hx))
+    refine ⟨j :: js, v' :: vs', ?_, ?_, ?_, ?_, ?_, ?_, ?_⟩
     · simp [mapExport, hf, hfs]
     · intro x hx
       rcases List.mem_cons.mp hx with rfl | hx
@@ -221,6 +290,9 @@ theorem mapExport_rt {f : PVal F → Except Err (JVal F)} {g : JVal F → Res F}
     · simp [hl]
     · simp [mapImport, hg, hgs]
     · simp [pyEqList, he, hes]
+    · intro hc
+      simp only [CanonList] at hc
+      rw [hx hc.1, hxs hc.2]
 
 theorem givenKeys_of_noNone : ∀ (items : List (String × PVal F)), (∀ kv ∈ items, kv.2 ≠ .none) →
     givenKeys items = items.map (·.1)
@@ -257,15 +329,15 @@ theorem ofJFields_noNone : ∀ (fs : List (String × JVal F)), (∀ kv ∈ fs, k
     · exact ofJFields_noNone fs (fun x hx => h x (List.mem_cons_of_mem _ hx)) kv hmem
 
 theorem mapFieldsExport_rt {f : String → PVal F → Option (Except Err (JVal F))} {g : String → JVal F → Option (Res F)}
-    {P : String → JVal F → Prop} :
+    {P : String → JVal F → Prop} {R : PVal F → PVal F → Prop} :
     ∀ (fields acc acc' : List (String × PVal F)),
     (∀ kv ∈ fields, ∃ j v', f kv.1 kv.2 = some (.ok j) ∧ P kv.1 j ∧ StrictJ j ∧ j ≠ .null ∧
-        g kv.1 j = some (.ok v') ∧ pyEq v' kv.2 = true) →
+        g kv.1 j = some (.ok v') ∧ R v' kv.2) →
     (fields.map (·.1)).Nodup → (∀ k ∈ fields.map (·.1), k ∉ acc.map (·.1)) →
-    RelFields (fun a b => pyEq a b = true) acc acc' →
+    RelFields R acc acc' →
     ∃ jfs fs', mapFieldsExport f fields = .ok jfs ∧ (∀ kv ∈ jfs, P kv.1 kv.2) ∧ StrictFields jfs ∧
       (∀ kv ∈ jfs, kv.2 ≠ .null) ∧ jfs.map (·.1) = fields.map (·.1) ∧
-      foldImport g jfs acc = .ok fs' ∧ RelFields (fun a b => pyEq a b = true) fs' (acc' ++ fields)
+      foldImport g jfs acc = .ok fs' ∧ RelFields R fs' (acc' ++ fields)
   | [], acc, acc', _, _, _, hrel => by
     refine ⟨[], acc, rfl, by simp, by simp [StrictFields], by simp, rfl, rfl, by simpa using hrel⟩
   | (k, v) :: rest, acc, acc', h, hnd, hdis, hrel => by
